@@ -10,6 +10,7 @@ import (
 	_ "github.com/bufbuild/bufverif/checks/c07"
 	_ "github.com/bufbuild/bufverif/checks/c08"
 	_ "github.com/bufbuild/bufverif/checks/c09"
+	_ "github.com/bufbuild/bufverif/checks/c10"
 	_ "github.com/bufbuild/bufverif/checks/c11"
 	_ "github.com/bufbuild/bufverif/checks/c12"
 	_ "github.com/bufbuild/bufverif/checks/c13"
